@@ -29,7 +29,7 @@ WithClm(t, m) == [t EXCEPT !.pay.m = m]
 \* failing tokens for a checker holding (k, a)
 BadToks(k, a) ==
   LET g == Good(k, a) IN
-  { Shape(g, "null"), Shape(g, "empty"), Shape(g, "0dot"), Shape(g, "1dot"), Shape(g, "2seg"), Shape(g, "lead"), Shape(g, "4seg"),
+  { Shape(g, "null"), Shape(g, "empty"), Shape(g, "0dot"), Shape(g, "1dot"), Shape(g, "2seg"), Shape(g, "lead"), Shape(g, "4seg"), Shape(g, "4segempty"), Shape(g, "4segmid"), Shape(g, "dupsig"),
     HCls(g, "notb64"), HCls(g, "len1mod4"), HCls(g, "notjson"), HCls(g, "arr"), HCls(g, "scalar"), HCls(g, "emptyobj"),
     HCls(g, "nulljson"), HCls(g, "strjson"), HCls(g, "empty"),
     HAlg(g, NONE), HAlg(g, "#int"), HAlg(g, "#null"), HAlg(g, "#arr"), HAlg(g, "bogus"), HAlg(g, "hs256"), HAlg(g, "none"),
